@@ -5,6 +5,7 @@ import PqModel.FileCodecs
 import PqModel.Props.C04Rle
 import PqModel.Props.C04Plain
 import PqModel.Props.C04Delta
+import PqModel.Props.C01Codecs
 
 /-! # C01 — Write then read returns exactly the rows that were written
 
@@ -218,5 +219,85 @@ example : readFile witnessSchema (fun j => int64Codec (j % 2 == 1) false id some
 example : cutsAligned witnessSchema [{ rows := 2, col := fun _ => ⟨[1, 1], 0⟩ }] witnessRows = false := by
   decide
 end Witness
+
+/-! ## every physical type × encoding, both data page layouts -/
+
+/-- The composition theorem for codecs with page-size limits of the format: `ColCodec.OKOn` asks the
+    value round trip only for admissible page value lists (`pk j`) and the storage round trip only
+    for admissible level sections (`sk j`); `pagesOK` (decidable: it runs the writer's cuts) says
+    every page the writer produces is admissible. `roundtrip` is the case without limits. -/
+theorem roundtrip_limits {β γ} (n : Node) (cd : Nat → ColCodec β γ) (B : Nat) (pk : Nat → List Nat → Bool)
+    (sk : Nat → β → β → Bool) (gs : List GroupCfg) (rows : List Val)
+    (hwf : wfN n = true) (hconf : ∀ v ∈ rows, confN n v = true)
+    (hB : levelsBounded B n = true) (hcd : ∀ j, j < leavesN n → (cd j).OKOn B (pk j) (sk j))
+    (hdom : ∀ v ∈ rows, valsIn (fun j => (cd j).okV) 0 (shredN n 0 0 0 v) = true)
+    (hpages : pagesOK n cd pk sk gs rows = true)
+    (hcuts : cutsAligned n gs rows = true) :
+    readFile n cd (writeFile n cd gs rows) = some rows :=
+  readFileWith_writeFile_on true n cd B pk sk gs rows hwf hconf hB hcd hdom hpages (fun _ => hcuts)
+
+/-- **C01 with every codec hypothesis but the compressor discharged, for every column type.**
+    Column `j` has physical type and value encoding `cols j` — any combination parquet-go accepts:
+    BOOLEAN {PLAIN, RLE}, INT32/INT64 {PLAIN, DELTA_BINARY_PACKED, BYTE_STREAM_SPLIT}, INT96 {PLAIN},
+    FLOAT/DOUBLE {PLAIN, BYTE_STREAM_SPLIT}, BYTE_ARRAY {PLAIN, DELTA_LENGTH_BYTE_ARRAY,
+    DELTA_BYTE_ARRAY}, FIXED_LEN_BYTE_ARRAY(n) {PLAIN, DELTA_BYTE_ARRAY, BYTE_STREAM_SPLIT} — with a
+    PLAIN dictionary page and RLE_DICTIONARY indexes while the column is dictionary-encoded, RLE
+    levels, and the data page v1 body framing (`v1 = true`: both level sections behind 4-byte
+    lengths inside the one compressed body) or the v2 layout. For every well-formed schema with
+    levels `≤ 255`, conforming rows whose leaves lie in the columns' domains, row-group partition,
+    page cuts at row boundaries, fallback points, and lossless compressor, provided every written
+    page is admissible (`pagesOK`: RLE boolean bodies and v1 level sections below 4 GiB):
+    reading the written file returns exactly the rows. -/
+theorem roundtrip_typed (n : Node) (cols : Nat → ColSpec) (v1 : Bool) (comp : List Nat → List Nat)
+    (decomp : List Nat → Option (List Nat)) (hcmp : ∀ b, decomp (comp b) = some b)
+    (gs : List GroupCfg) (rows : List Val)
+    (hwf : wfN n = true) (hconf : ∀ v ∈ rows, confN n v = true) (hB : levelsBounded 255 n = true)
+    (hsup : ∀ j, j < leavesN n → (cols j).supported = true)
+    (hdom : ∀ v ∈ rows, valsIn (fun j => (cols j).val.okV) 0 (shredN n 0 0 0 v) = true)
+    (hpages : pagesOK n (typedCodec n cols v1 comp decomp) (fun j => (cols j).val.okP)
+      (fun j => okSOf v1 ((levelsN n 0 0).getD j (0, 0))) gs rows = true)
+    (hcuts : cutsAligned n gs rows = true) :
+    readFile n (typedCodec n cols v1 comp decomp) (writeFile n (typedCodec n cols v1 comp decomp) gs rows) =
+      some rows :=
+  roundtrip_limits n _ 255 _ _ gs rows hwf hconf hB
+    (fun j hj =>
+      have h := C01Codecs.valCodecOf_ok (cols j) (hsup j hj)
+      C01Codecs.mkCodec_ok _ _ h.1 h.2.1 h.2.2.1 h.2.2.2 v1 _ comp decomp hcmp)
+    hdom hpages hcuts
+
+/-! ### non-vacuity: the witness schema with a BOOLEAN/RLE column, an optional BYTE_ARRAY/DELTA_BYTE_ARRAY
+column and, in the repeated group, a FIXED_LEN_BYTE_ARRAY(2)/BYTE_STREAM_SPLIT and an optional
+DOUBLE/PLAIN column; data page v1 framing -/
+section TypedWitness
+def typedCols (j : Nat) : ColSpec :=
+  match j with
+  | 0 => ⟨.boolean, .rle⟩
+  | 1 => ⟨.byteArray, .deltaByteArray⟩
+  | 2 => ⟨.flba 2, .byteStreamSplit⟩
+  | _ => ⟨.double, .plain⟩
+def typedRows : List Val :=
+  [ .struct [.prim 1, .none, .list []],
+    .struct [.prim 0, .some (.prim (natOfBytes [0x61, 0x62])),
+      .list [.struct [.prim 0xffff, .none], .struct [.prim 4, .some (.prim 0x7ff8000000000001)]]],
+    .struct [.prim 1, .some (.prim (natOfBytes [0x61, 0x62, 0x63])), .list [.struct [.prim 5, .some (.prim 0)]]] ]
+
+example : wfN witnessSchema = true ∧ (∀ v ∈ typedRows, confN witnessSchema v = true) ∧
+    levelsBounded 255 witnessSchema = true ∧
+    (∀ j, j < leavesN witnessSchema → (typedCols j).supported = true) ∧
+    (∀ v ∈ typedRows, valsIn (fun j => (typedCols j).val.okV) 0 (shredN witnessSchema 0 0 0 v) = true) ∧
+    cutsAligned witnessSchema witnessGroups typedRows = true := by
+  refine ⟨by decide, by decide, by decide, ?_, by decide +kernel, by decide⟩
+  intro j hj
+  have : j < 4 := hj
+  match j, this with
+  | 0, _ => decide
+  | 1, _ => decide
+  | 2, _ => decide
+  | 3, _ => decide
+
+example : pagesOK witnessSchema (typedCodec witnessSchema typedCols true id some) (fun j => (typedCols j).val.okP)
+    (fun j => okSOf true ((levelsN witnessSchema 0 0).getD j (0, 0))) witnessGroups typedRows = true := by
+  decide +kernel
+end TypedWitness
 
 end PqModel.Props.C01
